@@ -16,7 +16,7 @@ props.prop(
                 '(IndexedData) translates every identifier and view it forwards to its parent.',
     decides='view dependence of every return of to_mask / get_data / get_mask / compute / __getitem__ / _calculate / evaluate '
             'and the key-join routine; identifier and view translation of every IndexedData method that forwards to the '
-            'original dataset',
+            'original dataset; completion of None / Ellipsis / single-entry / short views by IndexedData',
     not_decided='that the view arithmetic is right (combine_slices, slice reversal, pixel broadcast shortcut): numerical',
     assumptions=['calls are dependence-preserving; locals() depends on every local'])
 
